@@ -26,6 +26,17 @@ func runC04(c *Ctx) {
 	c04R3(c)
 	c04R4(c)
 	c04R5(c)
+	c04R6(c)
+}
+
+// c04R6: the ack aggregation state is only touched under its mutex.
+func c04R6(c *Ctx) {
+	r := c.R.Rule("R6", "K5 frozen guarded-by table: every field of the v2 fan-out vote tally (multiAckNacker) is accessed under its mu, and the v1 destination acker's message queue under queueMutex while the worker runs", 40)
+	c.guardTable(r, guardEntry{Rel: pFunnel, Struct: "multiAckNacker", Mutex: "mu", Min: 30,
+		Fields: []string{"parent", "branches", "positions", "posIndex", "ackVotes", "terminal", "acked", "record", "nackErr", "nackTaskID", "released"}})
+	c.guardTable(r, guardEntry{Rel: pStream, Struct: "DestinationAckerNode", Mutex: "queueMutex", Min: 4,
+		Fields: []string{"queue"},
+		Exempt: map[string]string{"(*" + pStream + ".DestinationAckerNode).teardown": "runs in the worker goroutine after its loop ended and Run stopped enqueueing (the code says so: 'no need to lock, at this point the worker is not running anymore')"}})
 }
 
 func c04R1R2(c *Ctx) {
